@@ -46,7 +46,8 @@ SPECS = {
     "QConv2D": dict(stock="Conv2D", w=["kernel_quantizer", "bias_quantizer"],
                     axes={"H": [6, 5], "W": [6, 7], "cin": [4, 2], "filters": [2, 4], "kh": [3, 1, 2], "kw": [3, 1, 2],
                           "strides": [1, 2], "padding": ["valid", "same"], "dilation_rate": [1, 2], "groups": [1, 2],
-                          "use_bias": [True, False], "data_format": ["channels_last", "channels_first"]}),
+                          "use_bias": [True, False], "data_format": ["channels_last", "channels_first"],
+                          "mask": [None, "checker"]}),
     "QDepthwiseConv2D": dict(stock="DepthwiseConv2D", w=["depthwise_quantizer", "bias_quantizer"],
                              axes={"H": [6, 5], "W": [6, 7], "cin": [3, 1], "kh": [3, 1, 2], "kw": [3, 1, 2],
                                    "strides": [1, 2], "padding": ["valid", "same"], "depth_multiplier": [1, 2],
@@ -232,6 +233,10 @@ def run_case(case):
                    "detail": dict(case=case, **d)})
   g = dict(g)
   cf = g.pop("data_format", "channels_last") == "channels_first"
+  # tap mask of QConv2D (documented: applied to the QUANTIZED kernel): checker over (kh, kw), tap (0, 0) kept
+  mask = None
+  if g.pop("mask", None):
+    mask = np.fromfunction(lambda i, j: ((i + j) % 2 == 0), (g["kh"], g["kw"])).astype(np.float32)
   qkw = dict(zip(spec["w"], slots[:-1]))
   act = slots[-1]
   shape = _input_shape(cls, g)
@@ -240,7 +245,8 @@ def run_case(case):
     qlayer, kw = _build_bidir(tf, qkeras, g, qkw, act, True)
   else:
     kw = _kwargs(cls, g)
-    qlayer = getattr(qkeras, cls)(activation=act, name="q", **kw, **qkw, **({"data_format": "channels_first"} if cf else {}))
+    qlayer = getattr(qkeras, cls)(activation=act, name="q", **kw, **qkw, **({"data_format": "channels_first"} if cf else {}),
+                                  **({"mask": mask} if mask is not None else {}))
 
   def run_q(x):
     y = np.asarray(qlayer(tf.constant(_to_cf(x) if cf else x)), dtype=np.float32)
@@ -361,12 +367,17 @@ def run_case(case):
         refs.append(np.asarray(r, dtype=np.float32))
         plains.append(np.asarray(p, dtype=np.float32))
     else:
+      wq_, weights_ = list(wq), list(weights)
+      if mask is not None:
+        # the masked layer is the stock layer on q(kernel) * mask (0/1 factors: exact)
+        wq_[0] = wq_[0] * mask.reshape(mask.shape + (1, 1))
+        weights_[0] = weights_[0] * mask.reshape(mask.shape + (1, 1))
       ref = getattr(L, spec["stock"])(activation=activation, name="ref", **kw)
       ref(tf.constant(xs_in[0]))
-      ref.set_weights(wq)
+      ref.set_weights(wq_)
       plain = getattr(L, spec["stock"])(activation=activation, name="plain", **kw)
       plain(tf.constant(xs_in[0]))
-      plain.set_weights(weights)
+      plain.set_weights(weights_)
       refs = [np.asarray(ref(tf.constant(x)), dtype=np.float32) for x in xs_in]
       plains = [np.asarray(plain(tf.constant(x)), dtype=np.float32) for x in xs_in]
     return ys, refs, plains, changed
